@@ -636,12 +636,18 @@ class ExprMixin:
       return [Res(st, self.type_attr(v, name, node))]
     if isinstance(v, TupleImm):
       return [Res(st, BoundMethod(v, name))]
-    if isinstance(v, (ParamMap, SeqView, SuperObj, Closure, BuiltinFn)):
+    if isinstance(v, (ParamMap, SeqView, SuperObj, Closure, BuiltinFn, InstanceDict)):
       return [Res(st, BoundMethod(v, name))]
     if isinstance(v, Abstract):
       self.unsupp(f'attribute {name} of {type(v).__name__}', node)
     if name == '__new__':
       return [Res(st, BoundMethod(v, name))]    # cls.__new__: checked at the call
+    if name == '__dict__' and z3.is_expr(v):
+      if self.feasible_full(st, z3.Not(z3.And(is_VRef(v), cls_in(st.heap.cls(ref(v)), 'Buildable')))):
+        self.unsupp('__dict__ of a value that may not be a Buildable', node)
+      from pyvc.calls import trusted
+      trusted('obj.__dict__ of a Buildable holds exactly its five internals (no other instance attribute)')
+      return [Res(st, InstanceDict(v))]
     out = []
     # inspect.Parameter
     for st2, side in self.fork(st, is_VParam(v)):
